@@ -32,7 +32,7 @@ from easynetwork.lowlevel.api_sync.transports.abc import StreamTransport
 ID = "C03"
 CLAIMED = True
 TITLE = "Receive endpoints: every complete packet once, then sticky end-of-stream"
-REQUIRED_THEOREMS = ["C03_delivery", "C03_eos_after_everything", "C03_sticky", "C03_connection_sep_copy"]
+REQUIRED_THEOREMS = ["C03_delivery", "C03_eos_after_everything", "C03_sticky", "C03_connection_sep_copy", "C03_connection_sep_buffered"]
 LEVEL_TEXT = (
     "Machine-checked proof (Lean 4) over the endpoint receive model, generic in the consumer interface: for every transport "
     "script and every history of recv_packet calls, delivered items + what is still complete in the consumer = frame-by-frame "
@@ -42,7 +42,7 @@ LEVEL_TEXT = (
 )
 LEVEL_NOTE = (
     "Trusted: Lean kernel + standard axioms; model tied to code by sampled correspondence; kernel socket close/RST semantics "
-    "are exercised (loopback), not modelled; theorems instantiated for the copying consumer (buffered path: correspondence + oracle)."
+    "are exercised (loopback), not modelled; theorems instantiated for the copying and the buffer-filling consumer over the separator framers."
 )
 TECHNIQUE = "Lean 4 theorems (inductive invariant over call histories, refinement to byte-level decoding) + differential correspondence + reference-decoder oracle"
 TRUSTED_BASE = [
